@@ -32,19 +32,20 @@ def tok? (s : String) : Option Tok :=
   else if s.startsWith "E" && s.length > 1 then some (.error (s.drop 1).toString)
   else (s.toNat?).map fun v => .ok (some v)
 
-def kinds : List String := ["sim0", "sim1", "jani", "cont", "cani", "maxc", "maxani", "avgc", "avgani", "avganicmp"]
+def kinds : List String := ["sim0", "sim1", "jani", "cont", "cani", "maxc", "maxani", "avgc", "avgani"]
 
-def isAni (kind : String) : Bool := kind ∈ ["jani", "cani", "maxani", "avgani", "avganicmp"]
+def isAni (kind : String) : Bool := kind ∈ ["jani", "cani", "maxani", "avgani"]
 
 /-- which pairwise tables each compare function may be run on, and the table the CODE consults:
-    `compare_serial_avg_containment(return_ani=True)` builds `FracMinHashComparison(mh_j, mh_i)` itself
-    and never passes `downsample` on (table `avganicmp`, ds column 0) -/
+    `compare_serial_avg_containment(return_ani=True)` calls `containment_ani` in both directions (table `cani`
+    at the same `downsample`) and averages; the table `avgani` (`avg_containment_ani`) is only echoed: it is the
+    oracle's reference -/
 def tableFor (func kind : String) (ds : Nat) : Option (String × Nat) :=
   if func ∈ ["serial", "parallel", "allpairs"] ∧ kind ∈ ["sim0", "sim1", "jani"] then some (kind, ds)
   else if func = "containment" ∧ kind ∈ ["cont", "cani"] then some (kind, ds)
   else if func = "max" ∧ kind ∈ ["maxc", "maxani"] then some (kind, ds)
   else if func = "avg" ∧ kind = "avgc" then some (kind, ds)
-  else if func = "avg" ∧ kind = "avgani" then some ("avganicmp", 0)
+  else if func = "avg" ∧ kind = "avgani" then some ("cani", ds)
   else none
 
 def lookup (st : St) (key : String × Nat) : Option (Array Tok) :=
@@ -58,6 +59,14 @@ def cellOf (n : Nat) (tab : Array Tok) (ani : Bool) (perm : Array Nat) (a b : Na
     | .ok (some v) => .ok v
     | .ok none => .error "TypeError"      -- float(None); unreachable: non-ANI methods return floats
     | .error e => .error e
+
+/-- the raw table entry for the permuted list (ANI tables: `.ani` of the result, possibly None) -/
+def tokOf (n : Nat) (tab : Array Tok) (perm : Array Nat) (a b : Nat) : Tok :=
+  tab.getD (perm.getD a 0 * n + perm.getD b 0) (.error "IndexError")
+
+/-- `(x + y) / 2` on binary64 bit patterns (two exact IEEE-754 operations) -/
+def avgBits (x y : Nat) : Nat :=
+  ((Float.ofBits x.toUInt64 + Float.ofBits y.toUInt64) / 2).toBits.toNat
 
 def showMat (m : Nat) (r : Except String (Mat Nat)) : String :=
   match r with
@@ -96,7 +105,10 @@ def step (st : St) (line : String) : St × String :=
           | "serial", none => some (compareSerial m cell oneBits)
           | "containment", none => some (compareSerialContainment m cell oneBits)
           | "max", none => some (compareSerialMax m cell oneBits)
-          | "avg", none => some (compareSerialAvg m cell oneBits)
+          | "avg", none =>
+            if kind = "avgani" then
+              some (compareSerialAvgAni m (tokOf st.n tab perm.toArray) avgBits zeroBits oneBits)
+            else some (compareSerialAvg m cell oneBits)
           | "parallel", some j => some (compareParallel m j cell oneBits zeroBits)
           | "allpairs", j => some (compareAllPairs m j cell oneBits zeroBits)
           | _, _ => none
